@@ -2,7 +2,7 @@
 
 mod api;
 
-use actix_web::{get, middleware, web, Responder};
+use actix_web::{get, middleware, web, HttpResponse, Responder};
 use api::{api_scope, ServerState};
 use std::{collections::HashSet, sync::Arc};
 use taskchampion_sync_server_core::{Server, ServerConfig, Storage};
@@ -45,6 +45,13 @@ impl WebServer {
                 .service(index)
                 .service(api_scope()),
         );
+        // A request whose target is not a path (`OPTIONS *`) matches no scope, so the default
+        // headers above do not apply to it; answer it here, with the same header.
+        cfg.default_service(web::to(|| async {
+            HttpResponse::NotFound()
+                .insert_header(("Cache-Control", "no-store, max-age=0"))
+                .finish()
+        }));
     }
 }
 
